@@ -286,7 +286,8 @@ pub fn par_for(n: u64, threads: usize, f: impl Fn(u64) + Sync) {
 	let threads = threads.max(1);
 	std::thread::scope(|s| {
 		for _ in 0..threads {
-			s.spawn(|| loop {
+			// generous stacks: instrumented builds (coverage, sanitizers) have much larger frames
+			let _ = std::thread::Builder::new().stack_size(64 << 20).spawn_scoped(s, || loop {
 				let i = next.fetch_add(1, Ordering::Relaxed);
 				if i >= n {
 					break;
